@@ -82,15 +82,18 @@ pub open spec fn sel_ok(h: &HelperAttributesForCompareOp, tgt: CompareOp, t: &To
         None => uses(t) =~= Set::<int>::empty(),
     }
 }
-// C17: the Eq assertion is emitted for the field (or the selected key applied to it) unless eq/ord `by` is selected
-pub open spec fn eq_checker_ok(h: &HelperAttributesForCompareOp, t: &TokenStream) -> bool {
-    match sel(h, CompareOp::Eq) {
+// C17: "every field that takes part in equality - or the value of its key expression - has a type implementing Eq; fields that are
+// ignored or compared with `by` are exempt": the assertion is about what `==` compares, i.e. what PartialEq's precedence selects
+pub open spec fn eq_assert_uses(h: &HelperAttributesForCompareOp) -> Set<int> {
+    match sel(h, CompareOp::PartialEq) {
         Some(a) => {
             let at = attr_of(h, a);
-            if at.by.is_some() { uses(t) =~= Set::<int>::empty() }
-            else { at.key matches Some(k) && uses(t) =~= set![tmpl_id(&k)] }
+            if at.by.is_some() { Set::<int>::empty() } else { match at.key { Some(k) => set![tmpl_id(&k)], None => Set::<int>::empty() } }
         }
-        None => uses(t) =~= Set::<int>::empty(),
+        None => Set::<int>::empty(),     // the field itself
     }
+}
+pub open spec fn eq_checker_ok(h: &HelperAttributesForCompareOp, t: &TokenStream) -> bool {
+    uses(t) =~= (if sel(h, CompareOp::Eq) is None { Set::<int>::empty() } else { eq_assert_uses(h) })
 }
 }
